@@ -437,11 +437,30 @@ def _owner(ctx, server, put, remove):
                         sites += 1
                         is_none = isinstance(val, ast.Constant) and \
                             val.value is None
+                        vanished = False
+                        if func.qualname == 'Cell._fix_invalid_placements' \
+                                and is_none:
+                            # ... only for a server that is not in the map
+                            # of the cell's servers: one that is gets the
+                            # instance removed through Server.remove, or it
+                            # keeps listing it
+                            fgraph = ctx.cfg(func)
+                            fnz = N.Normaliser()
+                            ffacts = N.must_facts(fgraph, fnz)
+                            servers_p = func.params()[-1]
+                            for fnode in fgraph.nodes:
+                                if fnode.kind == 'stmt' and \
+                                        fnode.ast is sub:
+                                    vanished = any(
+                                        f.key[0] == 'in' and not f.key[3]
+                                        and f.key[1] == '%s.server' % rtxt
+                                        and f.key[2] == servers_p
+                                        for f in ffacts[fnode])
                         ok = func.qualname in (put.qualname,
                                                remove.qualname,
                                                'Application.__init__') or \
                             (func.qualname == 'Cell._fix_invalid_placements'
-                             and is_none)
+                             and is_none and vanished)
                         ctx.ob('C01.3', func, sub, ok,
                                'Application.server written by the leaf '
                                'placement/removal only (named exception: '
@@ -775,6 +794,10 @@ def _reported(ctx):
     from . import c10
     with ctx.shared({'C10': 'C01.9', 'C09': 'C01.9'}):
         c10.run(ctx)
+        # a server that is replaced gets the placement recorded under it back
+        # (otherwise its records outlive the model's placement and the next
+        # cycle records the instances a second time)
+        c09._reload(ctx)
 
 
 def check(ctx):
